@@ -71,7 +71,12 @@ def exact_thresholds(ctx, n):
         partial = [(k_, n_) for k_, n_ in fracs if 0 < k_ < n_]
         if not partial:
             continue
-        k_, n_ = partial[(i * 7) % len(partial)]
+        # prefer a fraction for which other ways of writing the quotient differ from k / n in the last bit (in seconds: (k / fs) / (n / fs);
+        # with a reciprocal: k * (1 / n)) - a property of the numbers, found by the harness' own arithmetic
+        fs_ = float(c['fs'])
+        delicate = [(k_, n_) for k_, n_ in partial if (k_ / fs_) / (n_ / fs_) != k_ / n_ or k_ * (1.0 / n_) != k_ / n_]
+        pool_ = delicate if delicate and i % 4 != 3 else partial
+        k_, n_ = pool_[(i * 7) % len(pool_)]
         o['threshold_kwargs']['burst_fraction_threshold'] = k_ / n_          # the correctly rounded quotient of the exact fraction
         chosen.append(c)
     if chosen:
